@@ -37,7 +37,13 @@ pub enum Op {
     Video { msid: u32, ts: u32, data: Vec<u8> },
     SetDataFrame { msid: u32, well_formed: bool },
     OtherData { msid: u32 },
-    Ping { ts: u32 },
+    /// ping request; `msid`: the message stream id its chunk header names (0 is usual)
+    Ping { ts: u32, msid: u32 },
+    /// protocol-control / user-control message other than a ping request, carrying number `n`:
+    /// kind 0 Abort, 1 Acknowledgement, 2 SetPeerBandwidth, 3-7 user control StreamBegin, StreamEof,
+    /// StreamDry, SetBufferLength, StreamIsRecorded, 8 PingResponse.  None of them is part of the
+    /// request/stream state machine, whatever number they carry.
+    Control { kind: u8, n: u32, msid: u32 },
     UnknownCommand,
     // application calls
     Accept { id: u32 },
@@ -166,13 +172,19 @@ impl Model {
 
     pub fn state_class(&self) -> String {
         // which stream states exist (a subset of c=created, P=publishing, L=playing, x=completed)
+        // (a coverage label only: with thousands of streams the oldest and newest 256 are looked at)
+        let mut seen = [false; 4];
+        for s in self.streams.values().take(256).chain(self.streams.values().rev().take(256)) {
+            seen[match s {
+                Stream::Created => 0,
+                Stream::Publishing(_) => 1,
+                Stream::Playing(_) => 2,
+                Stream::Completed => 3,
+            }] = true;
+        }
         let mut flags = String::new();
         for (c, f) in [('c', 0), ('P', 1), ('L', 2), ('x', 3)] {
-            let present = self.streams.values().any(|s| match (s, f) {
-                (Stream::Created, 0) | (Stream::Publishing(_), 1) | (Stream::Playing(_), 2) | (Stream::Completed, 3) => true,
-                _ => false,
-            });
-            if present {
+            if seen[f] {
                 flags.push(c);
             }
         }
@@ -329,8 +341,8 @@ impl Model {
                     }
                 }
             }
-            Op::OtherData { .. } | Op::UnknownCommand => {}
-            Op::Ping { ts } => want_tags.push(Tag::PingResponse { ts: *ts }),
+            Op::OtherData { .. } | Op::UnknownCommand | Op::Control { .. } => {}
+            Op::Ping { ts, .. } => want_tags.push(Tag::PingResponse { ts: *ts }),
             Op::Accept { id } => match self.outstanding.remove(id) {
                 None => want_ok = false,
                 Some(req) => {
